@@ -1057,6 +1057,58 @@ func c01Gen(r *Run) {
 			}
 		}
 	}
+	// paths of siblings: a chain r0 → a1 → … → a7 with a dozen leaves hanging off a2, a3, a5 and a6,
+	// so that a traveler whose path already has 3, 4, 6, 7 elements is extended to many children at
+	// once; every row of `path()` must list the elements ITS traveler visited (children of one
+	// parent must not share the storage of their paths)
+	if !prod {
+		vs := []interface{}{}
+		es := []interface{}{}
+		addV := func(id string) {
+			vs = append(vs, map[string]interface{}{"gid": id, "label": "A", "data": map[string]interface{}{"name": id}})
+		}
+		ne := 0
+		addE := func(from, to string) {
+			ne++
+			es = append(es, map[string]interface{}{"gid": fmt.Sprintf("f%03d", ne), "label": "k", "from": from, "to": to, "data": map[string]interface{}{}})
+		}
+		addV("r0")
+		prev := "r0"
+		for i := 1; i <= 7; i++ {
+			id := fmt.Sprintf("a%d", i)
+			addV(id)
+			addE(prev, id)
+			if i == 2 || i == 3 || i == 5 || i == 6 {
+				for j := 0; j < 12; j++ {
+					leaf := fmt.Sprintf("l%d_%02d", i, j)
+					addV(leaf)
+					addE(id, leaf)
+				}
+			}
+			prev = id
+		}
+		emit(map[string]interface{}{"op": "reset", "graph": map[string]interface{}{"vertices": vs, "edges": es}})
+		for k := 1; k <= 8; k++ {
+			q := []c01Stmt{{"v": sl("r0")}}
+			for i := 0; i < k; i++ {
+				q = append(q, c01Stmt{"out": sl()})
+			}
+			r.Count("pathfan")
+			query(append(append([]c01Stmt{}, q...), c01Stmt{"path": sl()}))
+			if k >= 2 {
+				// the same through edges (two path elements per hop) and with a mark on the way
+				qe := []c01Stmt{{"v": sl("r0")}}
+				for i := 0; i < k/2+1; i++ {
+					qe = append(qe, c01Stmt{"outE": sl()}, c01Stmt{"out": sl()})
+				}
+				query(append(qe, c01Stmt{"path": sl()}))
+				qm := append(append([]c01Stmt{}, q[:k]...), c01Stmt{"as": "a"}, c01Stmt{"out": sl()}, c01Stmt{"path": sl()})
+				query(qm)
+			}
+		}
+		query([]c01Stmt{{"v": sl("a2")}, {"both": sl()}, {"both": sl()}, {"both": sl()}, {"path": sl()}})
+		query([]c01Stmt{{"v": sl("a1")}, {"out": sl()}, {"out": sl()}, {"both": sl()}, {"out": sl()}, {"path": sl()}})
+	}
 	// the client-side query builder: prefixes of every length 0..14 extended twice
 	if !prod {
 		norm := func(q []c01Stmt) []interface{} {
